@@ -107,7 +107,14 @@ class C04(Prop):
             'mode': st.just('window_args'),
             'end': st.sampled_from(['1', '1000', '5']), 'start': st.sampled_from([None, '1']),
         })
-        return st.one_of(history, history, history, overlap, overlap, window_args)
+        shared = fd({
+            'mode': st.just('shared_line'),
+            'tps': st.lists(st.tuples(st.sampled_from(['1', '2', '3', '-1']), st.sampled_from(['0', '10', '100'])).map(list),
+                            min_size=2, max_size=3),
+            'gaps': st.lists(st.sampled_from(['0', '5ms', '10ms', '99ms', '100ms', 'large']), min_size=2, max_size=10),
+            'route': st.sampled_from(['response', 'response', 'triggers']),
+        })
+        return st.one_of(history, history, history, overlap, overlap, window_args, shared)
 
     # -------------------------------------------------------------------------------------------------
     def run_case(self, recipe):
@@ -318,6 +325,56 @@ class C04(Prop):
         if fc == -1 and period_ns == 0 and got < hits:
             out.violate('overlapping hit refused although every limit allows it: %s' % where,
                         {'collections': got, 'hits': hits, 'at': recipe['at']})
+
+    def case_shared_line(self, recipe):
+        """Several tracepoints on one line (merged into one trigger when they come in one poll response): every one of
+        them keeps its own limits."""
+        from deep.grpc import convert_response
+        from deepproto.proto.tracepoint.v1.tracepoint_pb2 import TracePointConfig
+        out = Outcome()
+        out.cls('history', 'shared_line')
+        specs = recipe['tps']
+        if recipe['route'] == 'response':
+            triggers = convert_response([TracePointConfig(ID='tp%d' % i, path=PATH, line_number=LINE,
+                                                          args={'fire_count': fc, 'fire_period': fp})
+                                         for i, (fc, fp) in enumerate(specs)])
+        else:
+            triggers = [build_trigger('tp%d' % i, PATH, LINE, {'fire_count': fc, 'fire_period': fp}, [], [])
+                        for i, (fc, fp) in enumerate(specs)]
+        handler, cfg, push = lab.make_handler(triggers)
+        models = [Limiter(int(fc), int(fp)) for fc, fp in specs]
+        gen = lab.frame_at(PATH, LINE, 'target', {'v': 1})
+        allowed = refused = 0
+        for hi, g in enumerate(recipe['gaps']):
+            lab.CLOCK.advance_ns({'0': 0, '5ms': 5_000_000, '10ms': 10_000_000, '99ms': 99_000_000,
+                                  '100ms': 100_000_000, 'large': 10_000_000_000}[g])
+            t = lab.CLOCK.now
+            n0 = len(push.snapshots)
+            try:
+                handler.trace_call(gen.gi_frame, 'line', None)
+            except BaseException as e:      # noqa
+                out.violate('trace_call raised %s' % lab.exc_bucket(e))
+                break
+            got = sorted(s.tracepoint.id for s in push.snapshots[n0:])
+            exp = []
+            for i, m in enumerate(models):
+                if m.allows(t):
+                    m.fire(t)
+                    exp.append('tp%d' % i)
+                    allowed += 1
+                else:
+                    refused += 1
+            if got != exp:
+                extra = [x for x in got if x not in exp]
+                out.violate('tracepoints sharing a line: %s' % ('one of them collected beyond its own limits' if extra
+                                                                else 'a due one did not collect'),
+                            {'hit': hi, 'expected': exp, 'got': got, 'tps': specs, 'route': recipe['route']})
+                break
+        gen.close()
+        if allowed and refused:
+            out.cls('allow_and_refuse')
+        out.nontrivial = allowed > 0 and refused > 0
+        return out
 
     def case_window_args(self, recipe):
         out = Outcome()
